@@ -292,6 +292,9 @@ func init() {
 		"(encoding/binary.littleEndian).PutUint16": lePut(2),
 		"bytes.Equal": func(e *Engine, fr *Frame, s *State, args []Value, pos string) Value {
 			r, sec := e.bytesEqual(fr, s, args[0], args[1], pos)
+			if !fr.harn {
+				e.H.taintSite("bytes.Equal@" + pos)
+			}
 			if sec && !fr.harn {
 				e.H.addTaint(e, "variable-time comparison (bytes.Equal)", pos, fr.fn.String())
 			}
@@ -557,9 +560,15 @@ func (e *Engine) readFull(fr *Frame, s *State, r *Iface, buf *SliceV, pos string
 	e.H.readerCalls = append(e.H.readerCalls, readerCall{reader: n.Obj().Name(), n: ln, pos: pos, pc: s.pc})
 	id := len(e.H.readerCalls)
 	fail := e.st.Sym(fmt.Sprintf("rd%d_fail", id), BoolSort)
+	secret := strings.HasPrefix(n.Obj().Name(), "reader:secret")
 	for k := 0; k < ln; k++ {
 		old := e.load(s, e.ptrAdd(buf.P, k), leafT, pos, fr)
-		nv := e.st.Sym(fmt.Sprintf("rd%d_b%d", id, k), BV(8))
+		var nv *Term
+		if secret {
+			nv = e.st.SecretSym(fmt.Sprintf("rd%d_b%d", id, k), BV(8))
+		} else {
+			nv = e.st.Sym(fmt.Sprintf("rd%d_b%d", id, k), BV(8))
+		}
 		e.storeVal(s, e.ptrAdd(buf.P, k), e.mergeValue(fail, e.st.Sym(fmt.Sprintf("rd%d_junk%d", id, k), BV(8)), nv), leafT, pos, fr)
 		_ = old
 	}
